@@ -32,7 +32,7 @@ THEOREMS = [
     'CC.C18_real_counterexample', 'CC.C18_rounds_up_to_one_text', 'CC.C18_complex_suppression_counterexample',
     'CC.C18_zero_never_infinity', 'CC.C18_exponent_decade_partial', 'CC.C18_accuracy_positional',
     'CC.C18_exponent_decade_small', 'CC.C18_exponent_decade_domain', 'CC.C18_accuracy_domain',
-    'CC.C18_mantissa_range_domain', 'CC.C18_saturate_domain', 'CC.C18_tables_ends', 'CC.C18_render', 'CC.C18_real_domain', 'CC.C18_complex_parts',
+    'CC.C18_mantissa_range_domain', 'CC.C18_saturate_domain', 'CC.C18_tables_ends', 'CC.C18_sine_shift', 'CC.C18_saturation_counterexample', 'CC.C18_render', 'CC.C18_real_domain', 'CC.C18_complex_parts',
 ]
 OPEN_STATEMENTS = [
     'CC.C18_exponent_decade_statement and CC.C18_real_partial_statement for |v| >= 1e16 only (outside the property domain '
@@ -113,12 +113,46 @@ def canon_of(case, failures, extra=None):
              table_max_negative=bool(case.get('use_prefix') and tname and max(TABLES[tname]) < 0)
                                 or case.get('fn') in ('print_capacitance', 'print_inductance'))
     c.update(extra or {})
-    if 'omitted_inside_range' in c['symptom']:
-        # the omitted part lies below the code's precision-dependent threshold 10^(min_exp + p - 1)
-        c['below_precision_threshold'] = True
+    if 'omitted_inside_range' not in c['symptom']:
+        c.pop('below_precision_threshold', None)
+    if not ({'saturated_inside_range', 'finite_beyond_range'} & set(c['symptom'].split('+'))):
+        c.pop('saturation_gap', None)
     return c
 
-SEPARATE = ('omitted_inside_range', 'infinite_text_for_zero')
+def decade_of(a: Fraction) -> int:
+    d = math.floor(math.log10(float(a))) if a else 0
+    while Fraction(10) ** d > a: d -= 1
+    while Fraction(10) ** (d + 1) <= a: d += 1
+    return d
+
+def in_saturation_gap(values, p: int, max_exp: int) -> bool:
+    """some value lies (after rounding to p digits) between the specified end of the range 1000·10^max_exp and the
+    code's precision-dependent one 10^(max_exp + p) — the open finding 'saturation depends on the precision'"""
+    lo, hi = min(p, 3), max(p, 3)
+    for v in values:
+        a = abs(fr(v))
+        if a == 0 or lo == hi: continue
+        hu = Fraction(10) ** (decade_of(a) - p + 1) / 2
+        if a + hu >= Fraction(10) ** (max_exp + lo) * (1 - TIE) and a < Fraction(10) ** (max_exp + hi): return True    # (float rounding may carry a tie)
+    return False
+
+def angle_digits_failure(err: float, ang: float, p: int, nd: int):
+    """the printed angle has fixed `nd` decimals; the property asks for half a unit of the p-th *significant* digit"""
+    if ang == 0: return None
+    allowed = 0.5 * 10.0 ** (math.floor(math.log10(abs(ang))) - p + 1)
+    if allowed < 0.5 * 10.0 ** -nd and err > allowed * (1 + 1e-6) + 1e-12:
+        return 'angle_fewer_digits_than_precision'
+    return None
+
+def below_threshold(fails, z: complex, p: int, min_exp: int) -> bool:
+    """every part the text leaves out lies below the code's precision-dependent threshold 10^(min_exp + p - 1)
+    (the open finding); a part left out at or above it is something else"""
+    thr = Fraction(10) ** (min_exp + p - 1)
+    parts = [v for tag, v in (('re:', z.real), ('im:', z.imag)) if any(f.startswith(tag) and 'omitted_inside_range' in f for f in fails)]
+    return all(abs(fr(v)) < thr for v in parts)       # exact: C18_suppressed_small proves is_zero ⇒ |v| < thr
+
+SEPARATE = ('omitted_inside_range', 'infinite_text_for_zero', 'angle_fewer_digits_than_precision', 'reactive_power_omitted',
+            'saturated_inside_range', 'finite_beyond_range')
 
 def report(out, case, fails, extra, what, **kw):
     """one spec failure per root-cause class: the independent symptoms `SEPARATE` are reported on their own,
@@ -159,9 +193,9 @@ def run_sf(ctx, out, case):
                 out.disagree('fmt_sf', case, s_impl, m['s'])
         res = drv.call('fmt_spec_real', v=core.q(v), precision=p, max_exp=max_exp, unit=unit, s=s_impl)
         if res['failures']:
-            out.spec_fail(canon_of(case, res['failures'], dict(region=reg)),
-                          f'{s_impl!r} displayed for {v!r} at precision {p}: ' + ', '.join(res['failures']),
-                          case, impl=s_impl, spec=dict(failures=res['failures'], parsed=res['parsed']), case=case)
+            report(out, case, res['failures'], dict(region=reg, saturation_gap=in_saturation_gap([v], p, max_exp)),
+                   f'{s_impl!r} displayed for {v!r} at precision {p}: ', impl=s_impl,
+                   spec=dict(failures=res['failures'], parsed=res['parsed']))
         else:
             out.nontrivial(('sf', p, use, tname, math.floor(math.log10(abs(v))) if v else None,
                             'inf' if res['parsed'] and res['parsed'].get('inf') else 'num'))
@@ -216,13 +250,18 @@ def run_sc(ctx, out, case):
                 if abs(fr(ang)) > Fraction(1, 10 ** nd) * (1 + TIE * 2 ** 12): fails.append('angle_omitted')
             else:
                 if abs(core.unq(res['angle']) - fr(ang)) > Fraction(1, 2) / 10 ** nd * (1 + TIE): fails.append('angle_accuracy')
+                else:
+                    f = angle_digits_failure(abs(float(core.unq(res['angle'])) - ang), ang, p, nd)
+                    if f: fails.append(f)
                 if bool(res['deg_sign']) != deg: fails.append('degree_sign')
     else:
         res = drv.call('fmt_spec_complex', re=core.q(z.real), im=core.q(z.imag), precision=p, min_exp=min_exp,
                        max_exp=max_exp, unit=unit, s=s_impl)
         fails = list(res['failures'])
     if fails:
-        report(out, case, fails, dict(region=reg), f'{s_impl!r} displayed for {z!r} at precision {p}: ', impl=s_impl,
+        report(out, case, fails, dict(region=reg, below_precision_threshold=below_threshold(fails, z, p, min_exp),
+                                      saturation_gap=in_saturation_gap([abs(z)] if polar else [z.real, z.imag], p, max_exp)),
+               f'{s_impl!r} displayed for {z!r} at precision {p}: ', impl=s_impl,
                spec={k: v for k, v in res.items()})
     else:
         quad = (z.real >= 0, z.imag >= 0)
@@ -275,8 +314,8 @@ def run_display(ctx, out, case):
         elif kind == 'sinus':
             w, sin, deg, hertz = case['w'], case['sin'], case['deg'], case['hertz']
             s_impl = f(z, unit=unit, precision=p, w=w, sin=sin, deg=deg, hertz=hertz)
-            ph = cmath.phase(z); ph += -math.pi / 2 if sin else 0
-            req.update(abs=core.q(abs(z)), phase=core.q(ph), phase_deg=core.q(math.degrees(ph)), w=core.q(w),
+            ph = shifted_phase(ctx.driver, z, sin) if ctx.driver is not None else cmath.phase(z)
+            req.update(re=core.q(z.real), abs=core.q(abs(z)), phase=core.q(ph), phase_deg=core.q(math.degrees(ph)), w=core.q(w),
                        w_hz=core.q(w / 2 / math.pi), sin=sin, deg=deg, hertz=hertz)
         elif kind == 'pq':
             s_impl = f(z, precision=p); req.update(re=core.q(z.real), im=core.q(z.imag))
@@ -333,6 +372,9 @@ def run_display(ctx, out, case):
                     if abs(fr(ang)) > Fraction(1, 10 ** nd) * (1 + TIE * 2 ** 12): fails.append('angle_omitted')
                 else:
                     if abs(core.unq(r['angle']) - fr(ang)) > Fraction(1, 2) / 10 ** nd * (1 + TIE): fails.append('angle_accuracy')
+                    else:
+                        f = angle_digits_failure(abs(float(core.unq(r['angle'])) - ang), ang, p, nd)
+                        if f: fails.append(f)
                     if bool(r['deg_sign']) != deg: fails.append('degree_sign')
     elif kind == 'pq':
         reg = regs(z.real, z.imag)
@@ -350,13 +392,20 @@ def run_display(ctx, out, case):
                 arrow, body = lines[1][3], lines[1][4:]
                 if z.imag != 0 and arrow != ('↓' if z.imag > 0 else '↑'): fails.append('Q:power_arrow')
                 fl, _ = real_oracle(drv, abs(z.imag), p, hi, 'var', body); fails += ['Q:' + x for x in fl]
-        elif abs(z.imag) > 1e-4 * (1 + 2.0 ** -40):
-            fails.append('Q:omitted')
+        elif abs(z.imag) >= 1e-12:
+            # the reactive part may be left out only if it is below the smallest unit the prefixes express (1 pvar)
+            fails.append('Q:reactive_power_omitted')
     elif kind == 'sinus':
         reg = regs(abs(z), ph, math.degrees(ph), case['w'], case['w'] / 2 / math.pi)
         fl, spec = sinus_oracle(drv, s_impl, z, unit, p, case, lo, hi); fails += fl
     if fails:
-        report(out, case, fails, dict(op=fn, region=reg), f'{fn}: {s_impl!r} displayed for {z!r} at precision {p}: ',
+        sat_vals = [z.real, z.imag, abs(z)] + ([abs(ph), abs(math.degrees(ph)), case['w'], case['w'] / 2 / math.pi] if kind == 'sinus' else [])
+        extra = dict(op=fn, region=reg, below_precision_threshold=below_threshold(fails, z, p, lo),
+                     saturation_gap=in_saturation_gap(sat_vals, p, hi) or (kind == 'sinus' and in_saturation_gap(sat_vals[3:], p, 16)))
+        if kind == 'sinus': extra['w_zero'] = (case['w'] == 0)
+        if kind == 'pq': extra['below_abs_threshold'] = abs(z.imag) <= 1e-4 * (1 + 2.0 ** -40)
+        report(out, case, fails, extra,
+               f'{fn}: {s_impl!r} displayed for {z!r} at precision {p}: ',
                impl=s_impl, spec=spec)
     else:
         out.nontrivial((fn, p, case.get('polar'), case.get('deg'), case.get('sin'), case.get('hertz'), z.real >= 0, z.imag >= 0,
@@ -368,47 +417,92 @@ def _angle_tie(ang, deg):
     x = abs(fr(ang)) * 10 ** nd
     return abs(abs(fr(ang)) - thr) <= thr * TIE * 2 ** 12 or abs(x - math.floor(x) - Fraction(1, 2)) < TIE
 
-def sinus_oracle(drv, s, z, unit, p, case, lo, hi, mod_2pi=False):
-    """amplitude·(sin|cos)([2π·]freq·t[±phase]) — the text must denote |z|·cos(w t + arg z)"""
+_consts = {}
+def sin_shift(drv) -> int:
+    """quarter turns the *code* adds for the sine form (translated by extract_fmt.py; used only to compute the
+    runtime parameters handed to the model — never by the oracle)"""
+    if 'sin_shift' not in _consts:
+        _consts.update(drv.call('fmt_consts'))
+    return int(_consts['sin_shift'])
+
+def shifted_phase(drv, z: complex, sin: bool) -> float:
+    ph = cmath.phase(z)
+    if sin: ph += sin_shift(drv) * math.pi / 2
+    return ph
+
+def parse_sinusoid(drv, s, unit):
+    """'A<unit>·(sin|cos)([2π·]<freq>(Hz|/s)·t[±<phase>[°]])' → dict(amp_text, fn, hertz, freq_text, phase_text (signed
+    string or ''), deg); None if the text has no such form"""
+    for fn in ('cos', 'sin'):
+        head, sep, tail = s.partition('·' + fn + '(')
+        if sep: break
+    else:
+        return None
+    if not tail.endswith(')'): return None
+    tail = tail[:-1]
+    hertz = tail.startswith('2π·')
+    if hertz: tail = tail[3:]
+    freq, sep, ph = tail.partition('·t')
+    if not sep: return None
+    if ph and ph[0] not in '+-': return None
+    return dict(amp=head, fn=fn, hertz=hertz, freq=freq, phase=ph, deg=ph.endswith('°'))
+
+def sinus_oracle(drv, s, z, unit, p, case, lo, hi, mod_2pi=True):
+    """Semantic, convention-independent: the text is parsed into the function it denotes,
+    A·fn(ω t + φ), and compared with Re(z·e^{jωt}) = |z|·cos(ω t + arg z): amplitude and frequency to the displayed
+    precision, phase modulo a full turn after converting sin → cos by a quarter turn.  The requested options
+    (sin / deg / hertz) only decide which *form* the text must have."""
     w, sin, deg, hertz = case['w'], case['sin'], case['deg'], case['hertz']
     fails = []
     a = abs(z)
     if w == 0:
-        return real_oracle(drv, a, p, hi, unit, s) if a else ([], None)
-    fname = 'sin' if sin else 'cos'
-    head, sep, tail = s.partition('·' + fname + '(')
-    if not sep or not tail.endswith(')'):
+        # no time dependence: the text denotes the constant Re(z·e^{j0}) = Re z, with its sign
+        if z.real == 0: return [], None
+        return real_oracle(drv, z.real, p, hi, unit, s)
+    t = parse_sinusoid(drv, s, unit)
+    if t is None:
         return ['unreadable'], None
-    tail = tail[:-1]
+    spec = None
     if a:
-        fl, spec = real_oracle(drv, a, p, hi, unit, head); fails += ['amplitude:' + x for x in fl]
-    else:
-        spec = None
-    if hertz:
-        if not tail.startswith('2π·'): return fails + ['frequency:two_pi_missing'], spec
-        tail = tail[3:]
-    freq, sep, ph = tail.partition('·t')
-    if not sep: return fails + ['unreadable'], spec
-    if hertz:
+        fl, spec = real_oracle(drv, a, p, hi, unit, t['amp']); fails += ['amplitude:' + x for x in fl]
+    # form requested by the options
+    if (t['fn'] == 'sin') != bool(sin): fails.append('form:function_name')
+    if t['hertz'] != bool(hertz): fails.append('form:two_pi')
+    if t['phase'] and t['deg'] != bool(deg): fails.append('form:degree_sign')
+    # frequency
+    if t['hertz']:
         _, hz_hi = helper_range(drv, 'print_sinosoidal_hz')
-        fl, _ = real_oracle(drv, w / 2 / math.pi, p, hz_hi, 'Hz', freq)
+        fl, _ = real_oracle(drv, w / 2 / math.pi, p, hz_hi, 'Hz', t['freq'])
     else:
-        fl, _ = real_oracle(drv, w, p, 16, '/s', freq)
+        fl, _ = real_oracle(drv, w, p, 16, '/s', t['freq'])
     fails += ['frequency:' + x for x in fl]
-    # the phase the text must denote, relative to the printed function
-    true_ph = cmath.phase(z) + (-math.pi / 2 if sin else 0)
-    if ph == '':
-        if abs(true_ph) > 1e-4 * (1 + 2.0 ** -30): fails.append('phase:omitted')
-    else:
-        sign = ph[0]
-        if sign not in '+-': return fails + ['unreadable'], spec
-        val = abs(math.degrees(true_ph)) if deg else abs(true_ph)
-        fl, _ = real_oracle(drv, val, p, 16, '°' if deg else '', ph[1:])
+    if a == 0:
+        return fails, spec
+    # phase: the angle the text must carry for its own function name, as a class modulo a full turn
+    full = 360.0 if t['deg'] else 2 * math.pi
+    target = cmath.phase(z) + (math.pi / 2 if t['fn'] == 'sin' else 0.0)       # cos x = sin(x + π/2)
+    if t['deg']: target = math.degrees(target)
+    if t['phase'] == '':
+        rep = math.remainder(target, full)
+        cut = 1e-4          # the code compares the phase in radians, whatever the display unit
+        if abs(rep) > cut * (1 + 2.0 ** -30) + 1e-9: fails.append('phase:omitted')
+        return fails, spec
+    body = t['phase'][1:-1] if t['deg'] else t['phase'][1:]
+    r = drv.call('fmt_parse', unit='', s=body)['parsed']
+    if r is None or r.get('inf'):
+        return fails + ['phase:unreadable'], spec
+    shown = float(Fraction(r['value'])) * (1 if t['phase'][0] == '+' else -1)
+    # the representative of the target class nearest to the displayed number
+    rep = target + full * round((shown - target) / full)
+    half_turn = abs(abs(math.remainder(shown - target, full)) - full / 2) <= 0.02 * full
+    if half_turn:
+        fails.append('phase:half_turn')          # the text denotes the negative of the quantity
+    elif abs(rep) > 1e-12:
+        fl, _ = real_oracle(drv, abs(rep), p, 16, '°' if t['deg'] else '', t['phase'][1:])
+        # conditioning of a solved phase: one unit in the 9th digit is not a formatting error
+        if 'accuracy' in fl and abs(abs(shown) - abs(rep)) <= 1e-9 * max(1.0, abs(rep)): fl.remove('accuracy')
         fails += ['phase:' + x for x in fl]
-        if (sign == '+') != (true_ph > 0):
-            # a phase of +π and of −π denote the same time function (only when the phase comes from a solve)
-            if not (mod_2pi and abs(abs(true_ph) - math.pi) <= 1e-6):
-                fails.append('phase:sign')
+        if (shown > 0) != (rep > 0) and abs(rep) > 1e-9: fails.append('phase:sign')
     return fails, spec
 
 RUNNERS = {'sf': run_sf, 'sc': run_sc, 'display': run_display}
@@ -506,10 +600,54 @@ CORPUS = [
     dict(kind='sc', re=3.0, im=1e-9, p=3, unit='V', use_prefix=False, table=None, compact=False, polar=True, deg=False),
     dict(kind='display', fn='print_sinosoidal', re=3.0, im=4.0, p=3, unit='V', w=100.0, sin=True, deg=False, hertz=True),
     dict(kind='display', fn='print_sinosoidal', re=3.0, im=4.0, p=3, unit='V', w=100.0, sin=False, deg=True, hertz=False),
+    # former finding (7cf4bc4): at w = 0 the label is the constant Re X with its sign
+    dict(kind='display', fn='print_sinosoidal', re=-10.0, im=0.0, p=3, unit='V', w=0.0, sin=False, deg=False, hertz=False),
+    dict(kind='display', fn='print_sinosoidal', re=3.0, im=4.0, p=3, unit='V', w=0.0, sin=False, deg=False, hertz=False),
     dict(kind='display', fn='print_active_reactive_power', re=3.0, im=-4.0, p=3),
     dict(kind='display', fn='print_active_power', re=-3.5, im=0.0, p=3),
     dict(kind='display', fn='print_capacitance', re=4.7e-9, im=0.0, p=2),
 ]
+
+def boundary_cases():
+    """values exactly at (and next to) every threshold of the formatter: the zero-suppression threshold
+    10^(min_exp + p - 1) of each prefix table and precision and the decade above it, the range end 10^(max_exp + p),
+    the phase cut-off 1e-4 of print_sinosoidal, the polar angle cut-offs 1e-5 rad / 0.01°"""
+    cases = []
+    for tname in TABLE_NAMES + [None]:
+        tbl = TABLES[tname] if tname else None
+        lo = min(tbl) if tbl else -16; hi = max(tbl) if tbl else 16
+        for p in range(1, 7):
+            for e in (lo + p - 1, lo + p, hi + p):
+                if not -15 <= e <= 15: continue
+                for y in neighbours(float(f'1e{e}')) + [float(f'9.995e{e - 1}'), float(f'5e{e}')]:
+                    big = float(f'3e{min(e + 2, hi + p - 1)}')
+                    use = tname is not None
+                    cases.append(dict(kind='sc', re=big, im=y, p=p, unit='V', use_prefix=use, table=tname, compact=True, polar=False, deg=False))
+                    cases.append(dict(kind='sc', re=-y, im=big, p=p, unit='A', use_prefix=use, table=tname, compact=False, polar=False, deg=False))
+                    cases.append(dict(kind='sf', v=y, p=p, unit='V', use_prefix=use, table=tname))
+    for p in (1, 3, 4, 6):
+        for e in (-6 + p - 1, -6 + p):
+            for y in neighbours(float(f'1e{e}')):
+                cases.append(dict(kind='display', fn='print_complex', re=0.02, im=y, p=p, unit='A', polar=False, deg=False))
+                cases.append(dict(kind='display', fn='print_complex', re=-y, im=-y * 1.5, p=p, unit='V', polar=False, deg=False))
+                cases.append(dict(kind='display', fn='print_impedance', re=y * 1000, im=-y * 1000, p=p))
+    for phi in [1e-4, float(np.nextafter(1e-4, 0)), float(np.nextafter(1e-4, 1)), 1.0001e-4, 0.9999e-4, -1e-4, -1.0001e-4, -0.9999e-4]:
+        z = 5.0 * cmath.exp(1j * phi)
+        for sin in (False, True):
+            for deg in (False, True):
+                cases.append(dict(kind='display', fn='print_sinosoidal', re=z.real, im=z.imag, p=3, unit='V', w=100.0, sin=sin, deg=deg, hertz=False))
+    for phi, deg in [(1e-5, False), (1.0001e-5, False), (0.9999e-5, False), (-1.0001e-5, False),
+                     (math.radians(0.01), True), (math.radians(0.010001), True), (math.radians(0.009999), True), (-math.radians(0.010001), True)]:
+        z = 2.0 * cmath.exp(1j * phi)
+        cases.append(dict(kind='display', fn='print_complex', re=z.real, im=z.imag, p=3, unit='V', polar=True, deg=deg))
+        cases.append(dict(kind='sc', re=z.real, im=z.imag, p=4, unit='V', use_prefix=False, table=None, compact=False, polar=True, deg=deg))
+    # sine-form labels in every quadrant (former finding: the quarter turn was subtracted)
+    for k in range(8):
+        z = 10.0 * cmath.exp(1j * (k * math.pi / 4 + 0.1))
+        for deg in (False, True):
+            cases.append(dict(kind='display', fn='print_sinosoidal', re=z.real, im=z.imag, p=3, unit='V', w=100.0, sin=True, deg=deg, hertz=(k % 2 == 0)))
+    cases.append(dict(kind='display', fn='print_sinosoidal', re=10.0, im=0.0, p=3, unit='V', w=100.0, sin=True, deg=False, hertz=False))
+    return cases
 
 def run(ctx, out):
     out.rule = ('binary64 values: decimal mantissas × 10^k (k ∈ [-15,15]) with both float neighbours, carry straddlers '
@@ -519,6 +657,8 @@ def run(ctx, out):
                 'use, table, options, decade or quadrant)')
     quick = ctx.quick
     for case in CORPUS:
+        check_case(ctx, out, case)
+    for case in boundary_cases():
         check_case(ctx, out, case)
     # ---- exhaustive / sampled decimal grid
     rng = ctx.rng('grid')
